@@ -159,4 +159,89 @@ theorem refParams_div_nonneg (rr rg rb : Nat) :
   have hmx : (0 : ℚ) ≤ max 1 (((max rr (max rg rb) : Nat)) : ℚ) := le_trans zero_le_one (le_max_left _ _)
   exact ⟨hinv _ (hm _ rr hmx), hinv _ (hm _ rg hmx), hinv _ (hm _ rb hmx)⟩
 
+/-! ### the conversion object over every history of set-up calls -/
+
+/-- a set-up call on the conversion object; a colour temperature comes with its black-body colour, whatever libm makes it -/
+inductive ConvOp where
+  | fixed (v : Nat)
+  | off
+  | subMin
+  | reference (r g b : Nat)
+  | temperature (t : F32) (bb : Nat × Nat × Nat)
+
+def _root_.Sb.Utils.Conv.step (c : Conv) : ConvOp → Conv
+  | .fixed v => c.useFixed v
+  | .off => c.turnOff
+  | .subMin => c.useMin
+  | .reference r g b => c.useReference r g b
+  | .temperature t bb => c.useTemperature t bb
+
+/-- what every reachable conversion object satisfies: reference divisors are non-negative -/
+def _root_.Sb.Utils.Conv.Good : Conv → Prop
+  | .ref _ d _ => 0 ≤ d.1 ∧ 0 ≤ d.2.1 ∧ 0 ≤ d.2.2
+  | _ => True
+
+theorem conv_step_good (c : Conv) (op : ConvOp) (h : c.Good) : (c.step op).Good := by
+  cases op with
+  | fixed v => trivial
+  | off => trivial
+  | subMin => trivial
+  | reference r g b => exact refParams_div_nonneg r g b
+  | temperature t bb =>
+    show (c.useTemperature t bb).Good
+    unfold Conv.useTemperature
+    cases c with
+    | fixed v => exact refParams_div_nonneg _ _ _
+    | subMin => exact refParams_div_nonneg _ _ _
+    | ref m d t0 =>
+      simp only
+      split
+      · exact h
+      · exact refParams_div_nonneg _ _ _
+
+theorem conv_history_good (ops : List ConvOp) : (ops.foldl Conv.step Conv.zero).Good := by
+  have : ∀ c : Conv, c.Good → (ops.foldl Conv.step c).Good := by
+    induction ops with
+    | nil => intro c h; exact h
+    | cons op ops ih => intro c h; exact ih _ (conv_step_good c op h)
+  exact this _ trivial
+
+/-- the documented contract of the method in force -/
+def ConvContract (c : Conv) (r g b : Nat) : Prop :=
+  match c with
+  | .fixed v => c.convert r g b = (r, g, b, v)
+  | .subMin => (c.convert r g b).1 + (c.convert r g b).2.2.2 = r ∧ (c.convert r g b).2.1 + (c.convert r g b).2.2.2 = g ∧
+      (c.convert r g b).2.2.1 + (c.convert r g b).2.2.2 = b ∧ (c.convert r g b).2.2.2 = min r (min g b)
+  | .ref _ _ _ => (c.convert r g b).1 ≤ r ∧ (c.convert r g b).2.1 ≤ g ∧ (c.convert r g b).2.2.1 ≤ b
+
+/-- **after any history of set-up calls** (fixed value, off, minimum subtraction, reference colours, colour temperatures
+with any black-body colour, remembered temperatures included) the conversion keeps the contract of the method that is
+in force: fixed value leaves rgb untouched, minimum subtraction gives rgb+w = original with w the smallest channel,
+a reference colour never exceeds the original channels. -/
+theorem conv_history_contract (ops : List ConvOp) (r g b : Nat) (hr : r ≤ 255) (hg : g ≤ 255) (hb : b ≤ 255) :
+    ConvContract (ops.foldl Conv.step Conv.zero) r g b := by
+  have hg' := conv_history_good ops
+  generalize ops.foldl Conv.step Conv.zero = c at hg'
+  cases c with
+  | fixed v => rfl
+  | subMin => exact rgbw_min_subtraction r g b
+  | ref m d t => exact rgbw_reference_le r g b m d hr hg hb hg'.1 hg'.2.1 hg'.2.2
+
+/-- the last set-up call decides the method: nothing of an earlier fixed value or minimum subtraction survives a reference
+colour, and a colour temperature that differs from the remembered one always installs its own colour -/
+theorem conv_temperature_fresh (c : Conv) (t : F32) (bb : Nat × Nat × Nat)
+    (h : ∀ m d t0, c = .ref m d t0 → floatEq t0 t = false) :
+    c.useTemperature t bb = .ref (refParams bb.1 bb.2.1 bb.2.2).1 (refParams bb.1 bb.2.1 bb.2.2).2 t := by
+  unfold Conv.useTemperature
+  cases c with
+  | fixed v => rfl
+  | subMin => rfl
+  | ref m d t0 =>
+    simp only
+    rw [h m d t0 rfl]
+    rfl
+
+example : (([ConvOp.temperature (.fin 4500) (255, 219, 186), .fixed 7, .temperature (.fin 4500) (255, 219, 186)].foldl
+    Conv.step Conv.zero).convert 200 100 50).2.2.2 ≠ 7 := by decide +kernel
+
 end Sb.C20
